@@ -458,7 +458,7 @@ def retry_site_fix(sc, res, violations):
 # ----------------------------------------------------------------------------------------------
 
 LEVEL = "fault_enumeration"
-QUICK_JOBS = 96
+QUICK_JOBS = 320
 THOROUGH_JOBS = 2400
 RULE = ("one case = (generated model, target, route, crash point k, exception kind, retry plan); models, targets, routes, "
         "grids, exception kinds and retry plans are drawn from the seed; for each model the fault-free write is measured "
